@@ -5,7 +5,9 @@ package rapidcore
 import (
 	"bytes"
 	"fmt"
+	"strconv"
 	"strings"
+	"time"
 
 	"go.amzn.com/lambda/interop"
 	"go.amzn.com/lambda/rapid"
@@ -86,6 +88,9 @@ func verifFullScenarioX(nExt int, subs []string, behaviours []int, raceTimers bo
 	f := newVerifFull(nExt, subs, plan, 3000)
 	w := f.w
 	execsBefore := 0
+	if !raceTimers {
+		w.SetSlowInit(true)
+	}
 	if raceTimers {
 		// let the initialisation finish first (expiry during init is the subject of
 		// VerifFullExpiryDuringInit); from now on the function-timeout timer may fire at any
@@ -96,6 +101,7 @@ func verifFullScenarioX(nExt int, subs []string, behaviours []int, raceTimers bo
 	for i, b := range behaviours {
 		delivered := len(w.RuntimeBodies())
 		startSeq := w.Seq()
+		arrival := time.Now().UnixNano()
 		o := f.invoke()
 		// the event reached the runtime byte for byte
 		if raceTimers && o.err == ErrInvokeTimeout && len(w.RuntimeBodies()) == delivered {
@@ -105,6 +111,16 @@ func verifFullScenarioX(nExt int, subs []string, behaviours []int, raceTimers bo
 		verifAssert(len(w.RuntimeBodies()) == delivered+1, "each invocation is handed to the runtime exactly once")
 		verifAssert(w.RuntimeBodies()[delivered] == string(o.ev), "the event is handed to the runtime byte for byte")
 		resp := w.RuntimeResponses()[delivered]
+		// the deadline handed to the runtime is arrival time + configured function timeout (3000 ms)
+		// (not under racing timers: there logical time may jump between the caller's arrival
+		// and the reservation, which is a late-scheduled goroutine, not a wrong deadline)
+		if raceTimers {
+		} else if dl, err := strconv.ParseInt(w.Deadlines()[delivered], 10, 64); err == nil {
+			want := (arrival + 3000*1000*1000) / 1000000
+			verifAssert(dl >= want && dl <= want+2, "the runtime's deadline equals arrival time plus the configured function timeout")
+		} else {
+			verifAssert(false, "the runtime receives a numeric deadline header")
+		}
 		if raceTimers && o.err == ErrInvokeTimeout {
 			// expiry won the race: the timeout outcome, and the environment is reset
 			verifReach("expiry-won")
@@ -182,15 +198,23 @@ func verifFullScenarioX(nExt int, subs []string, behaviours []int, raceTimers bo
 	verifReach("scenario-done")
 }
 
-func VerifFullHealthy2()      { verifFullScenario(0, nil, []int{rapid.VbRespond, rapid.VbRespond}) }
-func VerifFullHealthy2Ext()   { verifFullScenario(1, []string{"IS"}, []int{rapid.VbRespond, rapid.VbError}) }
-func VerifFullStale()         { verifFullScenario(0, nil, []int{rapid.VbStaleThenOK, rapid.VbDoubleRespond, rapid.VbRespond}) }
-func VerifFullIllegal()       { verifFullScenario(0, nil, []int{rapid.VbCaseVariantThenOK, rapid.VbIllegalThenOK, rapid.VbRespond}) }
+func VerifFullHealthy2() { verifFullScenario(0, nil, []int{rapid.VbRespond, rapid.VbRespond}) }
+func VerifFullHealthy2Ext() {
+	verifFullScenario(1, []string{"IS"}, []int{rapid.VbRespond, rapid.VbError})
+}
+func VerifFullStale() {
+	verifFullScenario(0, nil, []int{rapid.VbStaleThenOK, rapid.VbDoubleRespond, rapid.VbRespond})
+}
+func VerifFullIllegal() {
+	verifFullScenario(0, nil, []int{rapid.VbCaseVariantThenOK, rapid.VbIllegalThenOK, rapid.VbRespond})
+}
 func VerifFullTimeoutThenOK() { verifFullScenario(0, nil, []int{rapid.VbStall, rapid.VbRespond}) }
 func VerifFullExitThenOK()    { verifFullScenario(0, nil, []int{rapid.VbExit, rapid.VbRespond}) }
 func VerifFullRespondExit()   { verifFullScenario(0, nil, []int{rapid.VbRespondExit, rapid.VbRespond}) }
-func VerifFullTimeoutExt()    { verifFullScenario(1, []string{"IS"}, []int{rapid.VbStall, rapid.VbRespond}) }
-func VerifFullExitExt()       { verifFullScenario(1, []string{"I"}, []int{rapid.VbExit, rapid.VbRespond}) }
+func VerifFullTimeoutExt() {
+	verifFullScenario(1, []string{"IS"}, []int{rapid.VbStall, rapid.VbRespond})
+}
+func VerifFullExitExt() { verifFullScenario(1, []string{"I"}, []int{rapid.VbExit, rapid.VbRespond}) }
 
 // symbolic choice of the behaviour of each of n invocations
 func verifFullChoice(nExt int, subs []string, n int) {
@@ -206,13 +230,17 @@ func VerifFullAny2()    { verifFullChoice(0, nil, 2) }
 func VerifFullAny2Ext() { verifFullChoice(1, []string{"IS"}, 2) }
 func VerifFullAny3()    { verifFullChoice(0, nil, 3) }
 
-func VerifFullExitThenStall()    { verifFullScenario(0, nil, []int{rapid.VbExit, rapid.VbStall}) }
-func VerifFullStallThenStall()   { verifFullScenario(0, nil, []int{rapid.VbStall, rapid.VbStall}) }
-func VerifFullRespExitThenStall() { verifFullScenario(0, nil, []int{rapid.VbRespondExit, rapid.VbStall}) }
+func VerifFullExitThenStall()  { verifFullScenario(0, nil, []int{rapid.VbExit, rapid.VbStall}) }
+func VerifFullStallThenStall() { verifFullScenario(0, nil, []int{rapid.VbStall, rapid.VbStall}) }
+func VerifFullRespExitThenStall() {
+	verifFullScenario(0, nil, []int{rapid.VbRespondExit, rapid.VbStall})
+}
 
 // C05 "response versus expiry": the timeout timer may fire at any point of a healthy invocation.
-func VerifFullRace2()    { verifFullScenarioX(0, nil, []int{rapid.VbRespond, rapid.VbRespond}, true) }
-func VerifFullRace2Ext() { verifFullScenarioX(1, []string{"I"}, []int{rapid.VbRespond, rapid.VbRespond}, true) }
+func VerifFullRace2() { verifFullScenarioX(0, nil, []int{rapid.VbRespond, rapid.VbRespond}, true) }
+func VerifFullRace2Ext() {
+	verifFullScenarioX(1, []string{"I"}, []int{rapid.VbRespond, rapid.VbRespond}, true)
+}
 
 // C10 on the FULL stack: a second caller arrives at any point of an invocation that
 // stalls, times out and is reset. It is refused (ErrAlreadyReserved) or, if it arrives after the
